@@ -677,6 +677,99 @@ def rule_r14(ctx):
         raise AnalysisBroken("only %d wire words kept in locals found" % n)
 
 
+# ---------------------------------------------------------------------------
+# R15: a sleep computed as "deadline - now" is not entered with a deadline in the past
+
+
+def rule_r15(ctx):
+    r = ctx.rule("C11.R15", "T1", "a sleep until a deadline is not computed from a deadline in the past: where the duration given to "
+                 "nni_sleep_aio is a difference T - now of two times (now sampled from nni_clock in the same function), either "
+                 "the call is reached only over an edge that compared T (or the difference) with now (or 0), or every value "
+                 "this function stores into T was chosen by a comparison with now (directly, or through a local defined by a "
+                 "conditional on such a comparison). A peer that falls silent leaves its refresh time in the past: the "
+                 "difference is then <= 0 -- the timer spins, and at exactly -1 (NNG_DURATION_INFINITE) it sleeps for ever, "
+                 "so dead peers are never reaped and fill the endpoint up to its peer limit", floor=1)
+    prog = ctx.prog
+    n = 0
+    for f in prog.functions:
+        if f.cfg_failed or f.file.endswith("_test.c"):
+            continue
+        clocks = set()
+        for t in f.sites():
+            for m in walk(f.expand(t.node)):
+                if m.get("k") == "asg" and m["lhs"].get("k") == "var" and any(c.get("k") == "call" and c.get("fn") == "nni_clock" for c in walk(m["rhs"])):
+                    clocks.add(m["lhs"]["n"])
+                if m.get("k") == "decls":
+                    for d in m["d"]:
+                        if d.get("init") is not None and any(c.get("k") == "call" and c.get("fn") == "nni_clock" for c in walk(f.expand(d["init"]))):
+                            clocks.add(d["n"])
+        if not clocks:
+            continue
+
+        def is_now(x):
+            while x is not None and x.get("k") == "cast":
+                x = x["e"]
+            return x is not None and x.get("k") == "var" and x["n"] in clocks
+
+        def cmp_with_now(c):
+            """does the condition c compare something with the clock sample?"""
+            return any(m.get("k") == "bin" and m.get("op") in ("<", "<=", ">", ">=") and (is_now(m["lhs"]) or is_now(m["rhs"]))
+                       for m in walk(c))
+        for c in f.calls("nni_sleep_aio"):
+            d = G.resolve(f, f.expand(c.node["args"][0]), (c.b, c.i)) if c.node["args"] else None
+            subs = [m for m in walk(d) if m.get("k") == "bin" and m.get("op") == "-" and is_now(m["rhs"])] if d is not None else []
+            if not subs:
+                continue
+            n += 1
+            T = subs[0]["lhs"]
+            while T is not None and T.get("k") == "cast":
+                T = T["e"]
+            tf = last_field(T) if T is not None and T.get("k") == "mem" else None
+            # (i) the call itself is guarded by a comparison with now / of the difference with 0
+            guard = {}
+            for bid, k, atom, val in G.edge_facts(f):
+                if atom.get("k") == "bin" and atom.get("op") in ("<", "<=", ">", ">="):
+                    if (is_now(atom["lhs"]) or is_now(atom["rhs"])) and any(same_expr(x, T) for x in (atom["lhs"], atom["rhs"])):
+                        guard[bid] = k
+            # (ii) every store into T in this function was chosen against now
+            ok2 = tf is not None
+            stores = []
+            if tf is not None:
+                for t in f.assigns():
+                    if t.node["lhs"].get("k") == "mem" and last_field(t.node["lhs"]) == tf:
+                        rhs = f.expand(t.node["rhs"])
+                        if const_of(rhs) is not None:
+                            continue            # NNI_TIME_NEVER
+                        stores.append(t)
+                        chosen = False
+                        rr = rhs
+                        while rr is not None and rr.get("k") == "cast":
+                            rr = rr["e"]
+                        if rr is not None and rr.get("k") == "var":
+                            for _, dd in G.reaching_defs(f, rr["n"], (t.b, t.i)):
+                                if dd is not None and dd.get("k") == "cond" and cmp_with_now(dd["c"]):
+                                    chosen = True
+                        if rr is not None and rr.get("k") == "cond" and cmp_with_now(rr["c"]):
+                            chosen = True
+                        if not chosen:
+                            cut = {bid: k for bid, k, atom, val in G.edge_facts(f) if atom.get("k") == "bin" and
+                                   atom.get("op") in ("<", "<=", ">", ">=") and (is_now(atom["lhs"]) or is_now(atom["rhs"])) and
+                                   any(same_expr(x, rr) for x in (atom["lhs"], atom["rhs"]))}
+                            chosen = bool(cut) and G.dominated(f, (t.b, t.i), cut)
+                        if not chosen:
+                            ok2 = False
+                ok2 = ok2 and bool(stores)
+            if (guard and G.dominated(f, (c.b, c.i), guard)) or ok2:
+                r.ob(f, "nni_sleep_aio(%s) at line %s: the deadline was ordered against the clock sample" % (show(d)[:60], c.line))
+            else:
+                ctx.fail(r, f, "sleep until a deadline that may be in the past", c.line,
+                         "%s sleeps for %s (line %s) without having ordered the deadline against the clock: a deadline in the "
+                         "past gives a non-positive duration -- the timer completes at once and spins, and -1 is "
+                         "NNG_DURATION_INFINITE: it never wakes again" % (f.name, show(d)[:80], c.line))
+    if n < 1:
+        raise AnalysisBroken("no sleep computed as a difference of times found (udp_timer_cb had one)")
+
+
 def run(ctx):
     ctx.guard(rule_r1)
     ctx.guard(rule_r2)
@@ -691,6 +784,7 @@ def run(ctx):
     ctx.guard(rule_r11)
     ctx.guard(rule_r12)
     ctx.guard(rule_r14)
+    ctx.guard(rule_r15)
     from . import c16
     ctx.guard(c16.rule_r13)      # an unsolicited control frame must not wedge the connection
     for rr in ctx.rules:
